@@ -29,6 +29,10 @@ def load_known(prop):
     return [f for f in data.get("findings", []) if f["property"] == prop]
 
 
+ODD_ENV = {"NO_COLOR": "1", "CLICOLOR": "0", "CLICOLOR_FORCE": "0", "FORCE_COLOR": "0", "TERM": "dumb",
+           "COLUMNS": "20", "LINES": "5", "LC_ALL": "C", "LANG": "C", "PYTHONWARNINGS": "default"}
+
+
 def run_one_shard(spec, workdir, timeout):
     spec_path = os.path.join(workdir, f"spec{spec['shard']}.json")
     out_path = os.path.join(workdir, f"out{spec['shard']}.json")
@@ -37,6 +41,11 @@ def run_one_shard(spec, workdir, timeout):
                PYTHONDONTWRITEBYTECODE="1",
                PYTHONPATH=vf.VERIF + os.pathsep + os.environ.get("PYTHONPATH", ""))
     env.pop("AK_COLORS_CONF", None)
+    if (spec["shard"] % 4 == 0 and spec.get("replay") is None) or os.environ.get("VF_ODD_ENV"):
+        # every fourth shard runs in the environment of a cron job on a minimal machine: the conventions other
+        # programs follow for colours and terminal sizes are set - the package documents none of them, what the
+        # caller asks for is what counts
+        env.update(ODD_ENV, VF_SHARD_ODD_ENV="1")
     last = None
     for attempt in (1, 2):
         try:
